@@ -329,7 +329,10 @@ func (self *visitorUserNode) OnInt64(v int64, n json.Number) error {
 		if err = self.p.WriteDouble(convertData); err != nil {
 			return err
 		}
-
+	case proto.EnumKind:
+		if err = self.p.WriteEnum(proto.EnumNumber(v)); err != nil {
+			return err
+		}
 	default:
 		return newError(meta.ErrDismatchType, "param isn't intType", nil)
 	}
